@@ -533,10 +533,10 @@ func judgeRoundTrip(args, real, _ json.RawMessage) *core.Verdict {
 	return nil
 }
 
-// the "raw" env_file format is registered by consumers (docker compose does); without a registered
+// the "c09raw" env_file format is registered by consumers (docker compose does); without a registered
 // format the loader rejects every existing env_file that names one.
 func init() {
-	dotenv.RegisterFormat("raw", func(r io.Reader, _ string, _ func(string) (string, bool)) (map[string]string, error) {
+	dotenv.RegisterFormat("c09raw", func(r io.Reader, _ string, _ func(string) (string, bool)) (map[string]string, error) {
 		b, err := io.ReadAll(r)
 		if err != nil {
 			return nil, err
